@@ -103,6 +103,26 @@ Section Authz.
     /\ s' = set_cfg s (set_stopped (cfg s) true) /\ r = [].
   Proof. apply circuit_breaker_inv. Qed.
 
+  (* the converse: the admin and EVERY configured monitor, wherever it stands in the list, can halt -- in any state,
+     halted or not *)
+  Lemma In_mem_str x l : In x l -> mem_str x l = true.
+  Proof.
+    induction l as [|y l IH]; cbn; [intros []|]. intros [H|H].
+    - subst. rewrite String.eqb_refl. reflexivity.
+    - rewrite (IH H). apply orb_true_r.
+  Qed.
+  Lemma admin_is_admin s a : admin s = Some a -> is_admin s a = true.
+  Proof. unfold is_admin. intros ->. cbn. apply String.eqb_refl. Qed.
+  Theorem breaker_complete s e i :
+    (admin s = Some (sender i) \/ In (sender i) (monitors (cfg s))) ->
+    execute s e i CircuitBreaker = Ok (set_cfg s (set_stopped (cfg s) true), []).
+  Proof.
+    intros H. cbn [Staking.execute]. unfold circuit_breaker.
+    assert (E : is_admin s (sender i) || mem_str (sender i) (monitors (cfg s)) = true).
+    { destruct H as [H|H]; [rewrite (admin_is_admin _ _ H); reflexivity | rewrite (In_mem_str _ _ H); apply orb_true_r]. }
+    rewrite E. reflexivity.
+  Qed.
+
   Theorem resume_spec s e i n l rw s' r :
     execute s e i (ResumeContract n l rw) = Ok (s', r) ->
     admin s = Some (sender i)
